@@ -433,6 +433,9 @@ impl Router {
                 .borrow()
                 .get_h2_graceful_shutdown_deadline();
             let backend_id_for_gauge = backend.borrow().backend_id.to_owned();
+            // `backend_from_request` counted this connection on the backend
+            // (`Backend::try_connect`): the two early returns below give it back
+            let connecting_backend = backend.clone();
             let mut connection = if h2 {
                 match Connection::new_h2_client(
                     context.session_ulid,
@@ -448,8 +451,11 @@ impl Router {
                 ) {
                     Some(connection) => connection,
                     // pool exhaustion: socket already dropped by new_h2_client,
-                    // no side-effects were committed.
-                    None => return Err(BackendConnectionError::MaxBuffers),
+                    // no other side-effect was committed.
+                    None => {
+                        connecting_backend.borrow_mut().dec_connections();
+                        return Err(BackendConnectionError::MaxBuffers);
+                    }
                 }
             } else {
                 Connection::new_h1_client(
@@ -472,6 +478,7 @@ impl Router {
                     log_module_context!(context.http_context(stream_id))
                 );
                 // `connection` (socket + timeout_container) drops here.
+                connecting_backend.borrow_mut().dec_connections();
                 return Err(BackendConnectionError::MaxSessionsMemory);
             }
 
